@@ -26,6 +26,8 @@ def bopt(s):
 
 
 def render(c):
+    if not c["listed"]:
+        return "CAcc %d %s %s %s" % (CFG_ID[c["cfg"]], blist(c["key"]), blist(c["text"]), coq_bool(c["res"] == "ok"))
     return "CSet %d %s %s %s %s %s" % (CFG_ID[c["cfg"]], blist(c["key"]), bopt(c["pre"]), blist(c["text"]),
                                      coq_bool(c["res"] == "ok"), bopt(c["post"]))
 
@@ -59,9 +61,11 @@ def run(pid, tier, seed, replay):
     translated = rc == 0
     if not translated:
         ck.problem("translator", "rs_config_enums2coq.py could not translate the config sources (fails closed): %s" % out.strip()[-600:])
-    info = json.load(open(info_path)) if translated else {"tables": {}, "unmodelled": {}, "enums": []}
+    # (when the translator fails closed, the tables of the last good translation are still used for the correspondence,
+    #  so that a changed domain is also reported with a concrete input)
+    info = json.load(open(info_path)) if os.path.exists(info_path) else {"tables": {}, "unmodelled": {}, "enums": []}
     # ---- proofs over the regenerated tables
-    proof_ok = ck.proof_step() if translated else False
+    proof_ok = ck.proof_step()
     # ---- build + run the implementation
     ok, out, dt = vlib.cargo_build("h_core", bin="c43")
     ck.log("cargo build h_core: ok=%s (%.0fs)" % (ok, dt))
@@ -126,11 +130,11 @@ def run(pid, tier, seed, replay):
             continue
         seen.add(sig)
         corr.append(c)
-    if translated and proof_ok and par:
+    if proof_ok and par and info["tables"]:
         pre = ("From DF Require Import Base.Prelude Model.ConfigText Gen.ConfigEnums.\nOpen Scope Z_scope.\n"
                "Definition tbl_of (c : Z) := if c =? 0 then session_keys %d else if c =? 1 then csv_keys %d "
                "else if c =? 2 then json_keys %d else parquet_keys %d." % (par, par, par, par))
-        bad, log, dt = vlib.coq_eval_cases(pre, "c43_case", "c43_check tbl_of", [render(c) for c in corr], shard=600, tag="c43")
+        bad, log, dt = vlib.coq_eval_cases(pre, "c43_case", "c43_check tbl_of", [render(c) for c in corr], shard=max(600, len(corr) // 16 + 1), tag="c43")
         ck.log("correspondence: %d cases (deduplicated from %d), %d disagreements (%.1fs)" % (len(corr), len(sets), len(bad), dt))
         for b in bad[:5]:
             if isinstance(b, int):
